@@ -66,6 +66,13 @@ where
 
 /// Pool key which is used to identify a connection - using scheme
 /// and authority.
+#[cfg(feature = "verif-hooks")]
+impl<K> TokenMap<K> {
+    pub(crate) fn verif_iter(&self) -> impl Iterator<Item = (&K, Token)> {
+        self.map.iter().map(|(k, t)| (k, *t))
+    }
+}
+
 #[derive(Debug, Clone, Hash, PartialEq, Eq)]
 pub struct UriKey(http::uri::Scheme, Option<http::uri::Authority>);
 
